@@ -55,6 +55,18 @@ def roots(tier, seed):
                         c = alpha.base_case(n, pats, "in", "quad", "none", options={"nb_points": npt, "maxfev": cap})
                         c["dev"] = [["obj", k, alt]]
                         out.append(c)
+        # feasibility tolerances at or above the barrier value: a NaN constraint value (replaced by the barrier inside
+        # the solver) is not "feasible"
+        for pats in [("free",) * n, ("wide",) * n]:
+            for ftol in [alpha.INF, 2.0 ** 100, 1e40]:
+                for obj, extra in [("none", {}), ("quad", {"target": 10.0})]:
+                    for alt in ["nan", "huge", "pinf"]:
+                        for k in (0, 1, 2 * n + 1, 2 * n + 2):
+                            c = alpha.base_case(n, pats, "in", obj, "ball_le",
+                                                options=dict(extra, feasibility_tol=ftol, maxfev=30))
+                            c["dev"] = [["con0", kk, [alt, 0]] for kk in range(k + 1)]
+                            c["tag"]["special"] = "ftol-at-barrier"
+                            out.append(c)
         # undefined (NaN) bound entries mean "no bound on that side": the run is an ordinary one (status -1 is for
         # lb > ub only)
         for pats in [("wide",) * n, ("lo",) + ("wide",) * (n - 1)]:
